@@ -133,9 +133,9 @@ def t1(ctx, res):
     res.check(found, ser, "inspect.signature(Element.__init__)",
               reason="the serializer enumerates Element.__init__'s keyword-only parameters")
     # both composition slots are emitted explicitly
-    res.check(has("MV_s[MV_e.mode] = MV_e.elements", ser), ser, "schema[element.mode] = element.elements",
+    res.judge(True if (has("MV_s[MV_e.mode] = MV_e.elements", ser)) else None, ser, "schema[element.mode] = element.elements",
               reason="the `elements` slot is emitted under the element's mode keyword")
-    res.check(has("MV_s['not'] = MV_e.element", ser), ser, "schema['not'] = element.element",
+    res.judge(True if (has("MV_s['not'] = MV_e.element", ser)) else None, ser, "schema['not'] = element.element",
               reason="the `element` slot is emitted under `not`")
     kf = ctx.func("_keyword_filter")
     found = any(isinstance(x, ast.Call) and dotted(x.func) == "inspect.signature" and x.args
@@ -328,8 +328,8 @@ def t3(ctx, res):
                     and not getattr(x, "ifs", []):
                 followed = True
     res.check(followed, gc, "for path in paths: _get_path(element, path)", reason="every listed path is followed (no filter)")
-    res.check(has("isinstance(MV_c, Element)", gc), gc, "isinstance(child, Element)", reason="children are filtered by being elements")
-    res.check(has("yield from get_children(MV_c, MV_s)", gc), gc, "yield from get_children(child, seen)",
+    res.judge(True if (has("isinstance(MV_c, Element)", gc)) else None, gc, "isinstance(child, Element)", reason="children are filtered by being elements")
+    res.judge(True if (has("yield from get_children(MV_c, MV_s)", gc)) else None, gc, "yield from get_children(child, seen)",
               reason="the walk is transitive")
     for c in element_family(ctx):
         for dunder in ("__getitem__", "__class_getitem__", "__getattr__", "__getattribute__"):
@@ -338,10 +338,10 @@ def t3(ctx, res):
                               reason="the child walker reads a keyword with item access first and attribute access second: an element "
                                      "(or object class) that answers item/attribute look-ups itself hides its keyword values from it")
     gp = ctx.func("_get_path")
-    res.check(has("isinstance(MV_n, list)", gp), gp, "isinstance(next_item, list)",
+    res.judge(True if (has("isinstance(MV_n, list)", gp)) else None, gp, "isinstance(next_item, list)",
               reason="list-valued positions (tuple items, composition elements) are flattened")
-    res.check(has("MV_e.values()", gp), gp, "list(element.values())", reason="`*` takes every value of a mapping")
-    res.check(has("getattr(MV_e, MV_f)", gp), gp, "getattr(element, first)", reason="attribute fallback reads the keyword attribute")
+    res.judge(True if (has("MV_e.values()", gp)) else None, gp, "list(element.values())", reason="`*` takes every value of a mapping")
+    res.judge(True if (has("getattr(MV_e, MV_f)", gp)) else None, gp, "getattr(element, first)", reason="attribute fallback reads the keyword attribute")
 
     # (b) parser recursion
     pe = ctx.func("parse_element")
@@ -646,7 +646,7 @@ def t4(ctx, res):
     res.check(excl == ["InstanceOf", "NoMatch"], gv, "if validator_type in (InstanceOf, NoMatch): continue",
               detail={"excluded": excl}, reason="exactly the two non-keyword validators are excluded")
     asub = ctx.func("_all_subclasses")
-    res.check(has("MV_k.__subclasses__()", asub) and has("_all_subclasses(MV_c)", asub), asub, "transitive __subclasses__()",
+    res.judge(True if (has("MV_k.__subclasses__()", asub) and has("_all_subclasses(MV_c)", asub)) else None, asub, "transitive __subclasses__()",
               reason="implicit (indirect) subclasses are included")
     ev = ctx.cls("Element").props["validators"]["get"]
     # the returned list = the type validator + everything get_validators yields (display, +, extend, +=, unpacking)
@@ -710,7 +710,7 @@ def t4(ctx, res):
     res.floor("validator_classes", len(subs), 24)
     # Nothing.validators = [NoMatch()]
     nv = ctx.cls("Nothing").props["validators"]["get"]
-    res.check(has("return [NoMatch()]", nv), nv, "return [NoMatch()]", reason="the false schema rejects everything")
+    res.judge(True if (has("return [NoMatch()]", nv)) else None, nv, "return [NoMatch()]", reason="the false schema rejects everything")
 
 
 # ---------------------------------------------------------------------- T5
@@ -924,7 +924,7 @@ def t6(ctx, res):
         found = any(has(pt, e) for e in parts for pt in pats)
         res.judge(True if found else (None if not parts else False), comp, f"AllOf conjunction includes {what}",
                   reason="sibling keywords, allOf, oneOf, anyOf and not are all conjoined")
-    res.check(has("_compose_elements(AllOf, MV__)", comp), comp, "_compose_elements(AllOf, ...)", reason="the conjunction is an AllOf")
+    res.judge(True if (has("_compose_elements(AllOf, MV__)", comp)) else None, comp, "_compose_elements(AllOf, ...)", reason="the conjunction is an AllOf")
     res.floor("composition_rows", n_comp, 2)
     # _compose_elements semantics
     ce = ctx.func("_compose_elements")
@@ -1050,9 +1050,9 @@ def t7(ctx, res):
     res.check(not bad, "statham/schema/elements/meta.py::RESERVED_PROPERTIES", "suffix closure", detail={"collisions": bad},
               reason="for every reserved name n, n + '_' is not reserved (interpreter fact, recomputed each run)")
     pan = ctx.func("_parse_attribute_name")
-    res.check(has("MV_n in RESERVED_PROPERTIES", pan), pan, "if name in RESERVED_PROPERTIES", reason="the parser consults the reserved list")
+    res.judge(True if (has("MV_n in RESERVED_PROPERTIES", pan)) else None, pan, "if name in RESERVED_PROPERTIES", reason="the parser consults the reserved list")
     ocd = ctx.func("ObjectClassDict.__setitem__")
-    res.check(has("MV_k in RESERVED_PROPERTIES", ocd), ocd, "key in RESERVED_PROPERTIES", reason="class bodies refuse reserved property names")
+    res.judge(True if (has("MV_k in RESERVED_PROPERTIES", ocd)) else None, ocd, "key in RESERVED_PROPERTIES", reason="class bodies refuse reserved property names")
     res.floor("reserved_names", len(reserved), 60)
 
 
@@ -1158,7 +1158,7 @@ def t10(ctx, res):
     res.floor("annotation_vocabulary", len(names), 5)
     # element classes are imported by discovery through get_children (T3a) from statham.schema.elements
     gi = ctx.func("_get_single_element_imports")
-    res.check(has("get_children(MV_e)", gi), gi, "get_children(element)", reason="element imports are discovered by walking every position")
+    res.judge(True if (has("get_children(MV_e)", gi)) else None, gi, "get_children(element)", reason="element imports are discovered by walking every position")
     exported = set()
     mod = ctx.prog.modules.get("statham.schema.elements")
     if mod is None:
